@@ -285,8 +285,13 @@ def project(raw_events, scenario, bound=None):
                          inv=reqk.get(ev.get("reqid", ""), 0))
             else:
                 continue
+        elif kind == "StateSeen":
+            o.update(e="Obs", who=who_of(ev.get("who", "")), name=ev.get("state", ""))
         elif kind in ("HookEnter", "HookLeave"):
             o.update(e="Hook", ph="enter" if kind == "HookEnter" else "leave", point=ev.get("point", ""))
+        elif kind == "Missing":
+            # the driver expected an event of the emulator (e.g. the launch of a process) that did not come in time
+            o.update(e="Missing", name=ev.get("what", ""))
         elif kind == "NoOutcome":
             # the driver gave up waiting for an invocation's outcome (bound: timeout + reset allowance + grace + slack):
             # no action of the specification corresponds to it
